@@ -214,6 +214,14 @@ def rdf_cases():
             for ex in extras:
                 rec = sweeps.shape_ops("D", S("ex"), "A", kind, mask, idmode)
                 out.append(("rdf|%s%r|%s" % (kind, mask, idmode), pre + (rec,) + ex))
+    # names that a Turtle writer cannot abbreviate (a slash or a trailing dot in the local part), in a namespace no
+    # other name uses: the text then carries no @prefix for it
+    sl = lambda l: ("A", l, S("ex"))
+    out.append(("rdf|derivation|unabbreviable-names", pre + (("rel", "D", "derivation", None, (sl("v2/report"), sl("v1/report"), None, None, None)),)))
+    out.append(("rdf|usage|unabbreviable-names", pre + (("rel", "D", "usage", sl("u/1"), (sl("a/1"), sl("e/1"), "t1")),)))
+    out.append(("rdf|entity|trailing-slash", pre + (("el", "D", "entity", sl("dir/")),)))
+    out.append(("rdf|entity|trailing-dot", pre + (("el", "D", "entity", sl("a.")), ("rel", "D", "derivation", None, (sl("b."), sl("a."), None, None, None)))))
+    out.append(("rdf|bundle|unabbreviable-names", pre + (("bun", "B1", sl("run/1")), ("rel", "B1", "derivation", None, (sl("x/2"), sl("x/1"), None, None, None)))))
     # a document whose TriG text is longer than any copy block and dense in multi-byte characters
     for kind in ("entity", "generation"):
         rec = sweeps.shape_ops("D", S("ex"), "A", kind, () if kind == "entity" else (True, True, True), "id")
